@@ -113,9 +113,17 @@ type Handler func(http.ResponseWriter, *http.Request, Params)
 
 // addLeaf adds a new leaf from the given segment.
 func addLeaf(t Tree, r *Route, s *Segment, h Handler) (Leaf, error) {
+	// The optional marker does not make a segment different, e.g. "/?b" and "/b"
+	// both match "/b".
+	key := func(s *Segment) string {
+		if s.Optional {
+			return "/" + s.String()[2:] // Skip the leading "/?"
+		}
+		return s.String()
+	}
 	leaves := t.getLeaves()
 	for _, l := range leaves {
-		if l.getSegment().String() == s.String() {
+		if key(l.getSegment()) == key(s) {
 			return nil, errors.Errorf("duplicated route %q", r.String())
 		}
 	}
